@@ -10,6 +10,8 @@ import (
 	"encoding/hex"
 	"encoding/json"
 	"fmt"
+	"io"
+	"log/slog"
 	"os"
 	"path/filepath"
 	"runtime/debug"
@@ -109,6 +111,11 @@ type Rec struct {
 }
 
 func New(id string) *Rec {
+	// Environment dimension: the process-wide default logger of log/slog switched to the Debug level (an
+	// application that wants verbose logs does that once at start-up); output is discarded.
+	if os.Getenv("VERIF_SLOG_DEBUG") != "" {
+		slog.SetDefault(slog.New(slog.NewTextHandler(io.Discard, &slog.HandlerOptions{Level: slog.LevelDebug})))
+	}
 	return &Rec{
 		ID:        id,
 		hashes:    map[uint64]struct{}{},
